@@ -35,7 +35,7 @@ RULE = ('case = (component or composite with parameters, state, action, next sta
         'action). Categories count each component x {fires, silent} x {real, arbitrary} triple.')
 ASSUMPTIONS = ['reference semantics taken from the docstrings; tolerance 1e-9 relative on sums']
 REQUIRED = {'quick': {'component.evals': 20000, 'composite.evals': 2000, 'gridworld.spied_steps': 3000,
-                      'exit_agreement.steps': 1500, 'exit_agreement.fired': 5, 'shipped.total_reward_checked': 1500,
+                      'exit_agreement.steps': 1500, 'exit_agreement.fired': 5, 'shipped.total_reward_checked': 1500, 'far_distance.evals': 100,
                       **{f'fires.reward.{n}': 8 for n in ['reach_exit', 'overlap', 'bump_moving_obstacle', 'bump_into_wall',
                                                           'proportional_to_distance', 'getting_closer',
                                                           'getting_closer_shortest_path', 'actuate_door', 'pickndrop',
@@ -204,6 +204,41 @@ def direct(comp, rng, s):
         s.agent.grid_object = Key(rng.choice(list(Color)))
         return Action.PICK_N_DROP, None
     return None
+
+
+def far_distance_checks(ctx, n):
+    """distance shaping far away from the object (hundreds of cells): the sign of tiny euclidean changes must survive"""
+    from gym_gridverse.agent import Agent
+    from gym_gridverse.geometry import Orientation
+    from gym_gridverse.grid import Grid
+    from gym_gridverse.state import State
+    types = type_map()
+    for k in range(n):
+        rng = gen.rng_for('C12far', ctx.seed, ctx.shard, k)
+        h, w = rng.choice([(3, 400), (2, 640), (3, 257), (400, 3)])
+        rows = [[Floor() for _ in range(w)] for _ in range(h)]
+        ey, ex = (rng.randrange(h), 0) if w > h else (0, rng.randrange(w))
+        rows[ey][ex] = Exit()
+        far = rng.randint(200, max(h, w) - 2)
+        ay, ax = (rng.randrange(h), far) if w > h else (far, rng.randrange(w))
+        s = State(Grid(rows), Agent(Position(ay, ax), Orientation.F))
+        for (dy, dx) in ((1, 0), (-1, 0), (0, 1), (0, -1)):
+            ny, nx = ay + dy, ax + dx
+            if not (0 <= ny < h and 0 <= nx < w):
+                continue
+            ns = State(Grid(rows), Agent(Position(ny, nx), Orientation.F))
+            for spec in ({'name': 'getting_closer', 'object_type': 'Exit', 'distance_function': 'euclidean', 'reward_closer': 0.75, 'reward_further': -0.75},
+                         {'name': 'getting_closer', 'object_type': 'Exit', 'distance_function': 'manhattan', 'reward_closer': 0.5, 'reward_further': -0.5},
+                         {'name': 'proportional_to_distance', 'object_type': 'Exit', 'distance_function': 'euclidean', 'reward_per_unit_distance': -0.125}):
+                fn = compose.build('reward', spec)
+                ok, v = call_real(fn, s, Action.MOVE_FORWARD, ns)
+                ctx.ev()
+                ctx.hit('far_distance.evals')
+                want = refmodel.ref_reward(spec, types, s, Action.MOVE_FORWARD, ns)
+                if not ok or not close(v, want):
+                    ctx.violation('component', f'value.reward.{spec["name"]}',
+                                  f'{spec["name"]} ({spec["distance_function"]}) {h}x{w} grid, object at ({ey},{ex}), agent ({ay},{ax})->({ny},{nx}): '
+                                  f'returned {v!r}, documented value {want!r}', 'far_case', {'k': [ctx.seed, ctx.shard, k]})
 
 
 def make_triples(ctx, comp, rng, n):
@@ -460,18 +495,23 @@ def anchored():
 
 def run(ctx):
     from .. import custom_objects
-    custom_objects.enable(cleats=True)  # user-defined object types join the generators' pool (flags, not types, must decide)
+    custom_objects.enable(cleats=True, subclasses=True)  # user-defined types, incl. subclasses of Exit / MovingObstacle / Door
     log = []
     with Patch() as patch, reach(ctx, anchored()):
         install_exit_recorders(ctx, patch, log)
         drive_compositions(ctx, ctx.pick(240, 12000), log)
+        far_distance_checks(ctx, ctx.pick(10, 150))
         drive_shipped(ctx, log, ctx.pick(1, 20), ctx.pick(120, 500))
 
 
 def replay(ctx, kind, payload):
     from .. import custom_objects
-    custom_objects.enable(cleats=True)
+    custom_objects.enable(cleats=True, subclasses=True)
     types = type_map()
+    if kind == 'far_case':
+        ctx.seed, ctx.shard = payload['k'][0], payload['k'][1]
+        far_distance_checks(ctx, payload['k'][2] + 1)
+        return
     if kind == 'triple':
         spec, k = payload['spec'], payload['kind']
         s, ns = enc.state_from_json(payload['state']), enc.state_from_json(payload['next_state'])
